@@ -143,6 +143,8 @@ struct Award {
     vest_fmv: Option<Decimal>,
     action: Option<String>,
     empty_details: bool,
+    /// two detail records in one award transaction: one vest-specific, one fallback-only ("mixed": vest first, "mixed2": fallback first)
+    mixed: u8,
 }
 
 fn awards_of(sk: &Skeleton) -> Option<Vec<Award>> {
@@ -156,7 +158,7 @@ fn awards_of(sk: &Skeleton) -> Option<Vec<Award>> {
         let vest_date = a.get(3).and_then(|x| x.as_i64()).map(|d| sk.date(d));
         let fmv = vx::fresh(&format!("fmv{i}"));
         vx::assume(&vx::ge(fmv, zero));
-        let vest_fmv = if kind == "vest" || kind == "both" {
+        let vest_fmv = if kind == "vest" || kind == "both" || kind.starts_with("mixed") {
             let v = vx::fresh(&format!("vfmv{i}"));
             vx::assume(&vx::ge(v, zero));
             Some(v)
@@ -171,6 +173,7 @@ fn awards_of(sk: &Skeleton) -> Option<Vec<Award>> {
             vest_fmv,
             action: a.get(4).and_then(|x| x.as_str()).map(|s| s.to_string()),
             empty_details: kind == "empty",
+            mixed: if kind == "mixed" { 1 } else if kind == "mixed2" { 2 } else { 0 },
         });
     }
     Some(out)
@@ -196,7 +199,21 @@ fn awards_json(aw: &[Award]) -> String {
                 o.insert("Action".into(), json!(ac));
             }
             o.insert("Symbol".into(), json!(a.symbol));
-            o.insert("TransactionDetails".into(), if a.empty_details { json!([]) } else { json!([{"Details": Value::Object(details)}]) });
+            let dets = if a.empty_details {
+                json!([])
+            } else if a.mixed != 0 {
+                let mut v = serde_json::Map::new();
+                v.insert("VestFairMarketValue".into(), json!(format!("${}", a.vest_fmv.unwrap_or(a.fmv))));
+                if let Some(vd) = a.vest_date {
+                    v.insert("VestDate".into(), json!(us(vd)));
+                }
+                let f = json!({"Details": {"FairMarketValuePrice": format!("${}", a.fmv)}});
+                let v = json!({"Details": Value::Object(v)});
+                if a.mixed == 1 { json!([v, f]) } else { json!([f, v]) }
+            } else {
+                json!([{"Details": Value::Object(details)}])
+            };
+            o.insert("TransactionDetails".into(), dets);
             Value::Object(o)
         })
         .collect();
